@@ -7,7 +7,7 @@ if [ -n "${VP_RUN_REPO:-}" ] && [ "$(pwd)" != "/verif" ]; then
   export VERIF_REPO=$VP_RUN_REPO
 fi
 for seed in "$@"; do
-  for p in C01 C02 C03 C04 C05 C06 C07 C08 C09 C10 C11 C12 C13 C14 C15 C16 C17 C18; do
+  for p in ${PROPS:-C01 C02 C03 C04 C05 C06 C07 C08 C09 C10 C11 C12 C13 C14 C15 C16 C17 C18}; do
     s=$(date +%s)
     VERIF_SEED=$seed python3 verif.py check $p --tier $tier > work_ms_$p.log 2>&1
     rc=$?
